@@ -6,7 +6,10 @@ import DoviModel.Model.Esc
 
 `cview r` is what the three getters of the C API hand to a C caller for the RPU `r`: the field-by-field
 copies of `c_structs/rpu_data_header.rs`, `rpu_data_mapping.rs`, `rpu_data_nlq.rs`, `vdr_dm_data.rs` and the
-combined `DmData` of `extension_metadata.rs` (`combine_dm_data` / `set_blocks`). A pointer is an `Option`
+combined `DmData` of `extension_metadata.rs` (`combine_dm_data` / `set_blocks`). The C-side structures are
+field-by-field mirrors of the `#[repr(C)]` structs (they hold only what the C structs hold, not the Rust
+structures); the conversions copy exactly what the Rust `From` impls copy. Both are tied to the Rust text by
+`tools/gen_source_cstructs.py` → `Gen/SourceCStructs.lean` → `C20.source_cstructs_agree…`. A pointer is an `Option`
 (`none` = null pointer), the `-1` / empty markers are values. `CView.toJson` renders exactly the JSON object
 the executor op `capi.view` prints from the real structs (shape documented in
 `harness/libcase/src/ops_capi.rs`).
@@ -48,43 +51,153 @@ def cptr {α} (f : α → CJ) : Option α → CJ
   | none => .null
   | some a => f a
 
-/-! ## the structures a C caller sees -/
+/-! ## the structures a C caller sees
 
-/-- `RpuDataHeader` of the C API: `guessed_profile`, `el_type` (static string or null) and the copied fields
-of the Rust header (`hdr`; the C struct has no `coefficient_log2_denom_length` / `ext_mapping_idc_*`) -/
+One Lean structure per `#[repr(C)]` struct of `c_structs/*.rs`, one Lean field per C field, same names, same
+order. A `(data, len)` / `(list, len)` pair (`Data`, `U16Data`, `U64Data`, `I64Data`, the 2D / 3D variants, the
+`LevelNBlockList`s) is a `List`; a fixed array is a `List`; a pointer is an `Option` (`none` = null). The only
+data pointer the code can leave null is the one of `U16Data::empty()` (absent `nlq_pred_pivot_value`): it has the
+extra flag `nlq_pred_data_null`, which is not a C field. `X.cFields` lists `(field name, C type as written in the
+Rust source)` of the struct `X` mirrors; `Props/C20.lean` proves these lists equal to the ones regenerated from
+the Rust sources (`Gen/SourceCStructs.lean`) and to the field names of the Lean structures themselves. -/
+
+/-- `RpuDataHeader` of the C API (`c_structs/rpu_data_header.rs`). It has no `coefficient_log2_denom_length`,
+`ext_mapping_idc_0_4`, `ext_mapping_idc_5_7` -/
 structure CHeader where
   guessed_profile : Nat
   el_type : Option ElType
-  hdr : Header
+  rpu_nal_prefix : Nat
+  rpu_type : Nat
+  rpu_format : Nat
+  vdr_rpu_profile : Nat
+  vdr_rpu_level : Nat
+  vdr_seq_info_present_flag : Bool
+  chroma_resampling_explicit_filter_flag : Bool
+  coefficient_data_type : Nat
+  coefficient_log2_denom : Nat
+  vdr_rpu_normalized_idc : Nat
+  bl_video_full_range_flag : Bool
+  bl_bit_depth_minus8 : Nat
+  el_bit_depth_minus8 : Nat
+  vdr_bit_depth_minus8 : Nat
+  spatial_resampling_filter_flag : Bool
+  reserved_zero_3bits : Nat
+  el_spatial_resampling_filter_flag : Bool
+  disable_residual_flag : Bool
+  vdr_dm_metadata_present_flag : Bool
+  use_prev_vdr_rpu_flag : Bool
+  prev_vdr_rpu_id : Nat
 deriving Repr, DecidableEq
 
+def CHeader.cFields : List (String × String) :=
+  [("guessed_profile", "u8"), ("el_type", "*const c_char"), ("rpu_nal_prefix", "u8"),
+   ("rpu_type", "u8"), ("rpu_format", "u16"), ("vdr_rpu_profile", "u8"),
+   ("vdr_rpu_level", "u8"), ("vdr_seq_info_present_flag", "bool"), ("chroma_resampling_explicit_filter_flag", "bool"),
+   ("coefficient_data_type", "u8"), ("coefficient_log2_denom", "u64"), ("vdr_rpu_normalized_idc", "u8"),
+   ("bl_video_full_range_flag", "bool"), ("bl_bit_depth_minus8", "u64"), ("el_bit_depth_minus8", "u64"),
+   ("vdr_bit_depth_minus8", "u64"), ("spatial_resampling_filter_flag", "bool"), ("reserved_zero_3bits", "u8"),
+   ("el_spatial_resampling_filter_flag", "bool"), ("disable_residual_flag", "bool"), ("vdr_dm_metadata_present_flag", "bool"),
+   ("use_prev_vdr_rpu_flag", "bool"), ("prev_vdr_rpu_id", "u64")]
+
+/-- `PolynomialCurve` (`c_structs/rpu_data_mapping.rs`) -/
+structure CPoly where
+  /-- `U64Data` -/
+  poly_order_minus1 : List Nat
+  /-- `Data`: one byte per flag (`e as u8`) -/
+  linear_interp_flag : List Nat
+  /-- `I64Data2D`: one `I64Data` per piece -/
+  poly_coef_int : List (List Int)
+  /-- `U64Data2D` -/
+  poly_coef : List (List Nat)
+deriving Repr, DecidableEq
+
+def CPoly.cFields : List (String × String) :=
+  [("poly_order_minus1", "U64Data"), ("linear_interp_flag", "Data"), ("poly_coef_int", "I64Data2D"),
+   ("poly_coef", "U64Data2D")]
+
+/-- `MMRCurve` (`c_structs/rpu_data_mapping.rs`) -/
+structure CMmr where
+  /-- `Data` -/
+  mmr_order_minus1 : List Nat
+  /-- `I64Data` -/
+  mmr_constant_int : List Int
+  /-- `U64Data` -/
+  mmr_constant : List Nat
+  /-- `I64Data3D`: piece → order → coefficient, nested as in the Rust `Vec<ArrayVec<[ArrayVec<..>; 3]>>` -/
+  mmr_coef_int : List (List (List Int))
+  /-- `U64Data3D` -/
+  mmr_coef : List (List (List Nat))
+deriving Repr, DecidableEq
+
+def CMmr.cFields : List (String × String) :=
+  [("mmr_order_minus1", "Data"), ("mmr_constant_int", "I64Data"), ("mmr_constant", "U64Data"),
+   ("mmr_coef_int", "I64Data3D"), ("mmr_coef", "U64Data3D")]
+
+/-- `ReshapingCurve` (`c_structs/rpu_data_mapping.rs`) -/
 structure CCurve where
   num_pivots_minus2 : Nat
+  /-- `U16Data` built from a `Vec`: never a null data pointer -/
   pivots : List Nat
+  /-- `curve.mapping_idc as u8` -/
   mapping_idc : Nat
-  polynomial : Option PolyCurve
-  mmr : Option MmrCurve
+  polynomial : Option CPoly
+  mmr : Option CMmr
 deriving Repr, DecidableEq
 
+def CCurve.cFields : List (String × String) :=
+  [("num_pivots_minus2", "u64"), ("pivots", "U16Data"), ("mapping_idc", "u8"),
+   ("polynomial", "*const PolynomialCurve"), ("mmr", "*const MMRCurve")]
+
+/-- `RpuDataNlq` (`c_structs/rpu_data_nlq.rs`): seven arrays of `NUM_COMPONENTS` = 3 entries -/
+structure CNlq where
+  nlq_offset : List Nat
+  vdr_in_max_int : List Nat
+  vdr_in_max : List Nat
+  linear_deadzone_slope_int : List Nat
+  linear_deadzone_slope : List Nat
+  linear_deadzone_threshold_int : List Nat
+  linear_deadzone_threshold : List Nat
+deriving Repr, DecidableEq
+
+def CNlq.cFields : List (String × String) :=
+  [("nlq_offset", "[u16; NUM_COMPONENTS]"), ("vdr_in_max_int", "[u64; NUM_COMPONENTS]"),
+   ("vdr_in_max", "[u64; NUM_COMPONENTS]"), ("linear_deadzone_slope_int", "[u64; NUM_COMPONENTS]"),
+   ("linear_deadzone_slope", "[u64; NUM_COMPONENTS]"), ("linear_deadzone_threshold_int", "[u64; NUM_COMPONENTS]"),
+   ("linear_deadzone_threshold", "[u64; NUM_COMPONENTS]")]
+
+/-- `RpuDataMapping` (`c_structs/rpu_data_mapping.rs`) -/
 structure CMapping where
   vdr_rpu_id : Nat
   mapping_color_space : Nat
   mapping_chroma_format_idc : Nat
   num_x_partitions_minus1 : Nat
   num_y_partitions_minus1 : Nat
+  /-- `[ReshapingCurve; NUM_COMPONENTS]` -/
   curves : List CCurve
   /-- `-1` represents `Option::None` -/
   nlq_method_idc : Int
   /-- `-1` represents `Option::None` -/
   nlq_num_pivots_minus2 : Int
-  /-- length zero when not present -/
+  /-- `U16Data`; length zero when not present -/
   nlq_pred_pivot_value : List Nat
-  /-- `U16Data::empty()` carries a null data pointer -/
+  /-- not a C field: `U16Data::empty()` carries a null data pointer -/
   nlq_pred_data_null : Bool
-  nlq : Option Nlq
+  nlq : Option CNlq
 deriving Repr, DecidableEq
 
-/-- the combined `DmData` of the C API -/
+def CMapping.cFields : List (String × String) :=
+  [("vdr_rpu_id", "u64"), ("mapping_color_space", "u64"), ("mapping_chroma_format_idc", "u64"),
+   ("num_x_partitions_minus1", "u64"), ("num_y_partitions_minus1", "u64"),
+   ("curves", "[ReshapingCurve; NUM_COMPONENTS]"), ("nlq_method_idc", "i32"), ("nlq_num_pivots_minus2", "i32"),
+   ("nlq_pred_pivot_value", "U16Data"), ("nlq", "*const RpuDataNlq")]
+
+/-- the Lean-only fields of the mirrors (null flags of data pointers) -/
+def cAuxFields : List String := ["nlq_pred_data_null"]
+
+/-- the combined `DmData` of the C API (`c_structs/extension_metadata.rs`). The pointees are the
+`ExtMetadataBlockLevelN` structs themselves: they are `#[repr(C)]` in `rpu/extension_metadata/blocks/levelN.rs`
+and serve as Rust and as C structs (the conversion clones them), so a `Block` of the model stands for both; the
+pointer type fixes the level. `level2` / `level8` / `level10` are `LevelNBlockList { list, len }` -/
 structure CLevels where
   num_ext_blocks : Nat
   level1 : Option Block
@@ -101,14 +214,107 @@ structure CLevels where
   level255 : Option Block
 deriving Repr, DecidableEq
 
+def CLevels.cFields : List (String × String) :=
+  [("num_ext_blocks", "u64"), ("level1", "*const ExtMetadataBlockLevel1"), ("level2", "Level2BlockList"),
+   ("level3", "*const ExtMetadataBlockLevel3"), ("level4", "*const ExtMetadataBlockLevel4"),
+   ("level5", "*const ExtMetadataBlockLevel5"), ("level6", "*const ExtMetadataBlockLevel6"),
+   ("level8", "Level8BlockList"), ("level9", "*const ExtMetadataBlockLevel9"), ("level10", "Level10BlockList"),
+   ("level11", "*const ExtMetadataBlockLevel11"), ("level254", "*const ExtMetadataBlockLevel254"),
+   ("level255", "*const ExtMetadataBlockLevel255")]
+
+/-- the C fields of the `#[repr(C)]` struct `ExtMetadataBlockLevelN` (declaration order; L8 / L9 / L10 start
+with `length`) -/
+def cBlockFieldNames (level : Nat) : List String :=
+  if level == 8 || level == 9 || level == 10 then "length" :: blockFieldNames level else blockFieldNames level
+
+/-- `VdrDmData` of the C API (`c_structs/vdr_dm_data.rs`) -/
 structure CDm where
   compressed : Bool
   affected_dm_metadata_id : Nat
   current_dm_metadata_id : Nat
   scene_refresh_flag : Nat
-  main : List Int
+  ycc_to_rgb_coef0 : Int
+  ycc_to_rgb_coef1 : Int
+  ycc_to_rgb_coef2 : Int
+  ycc_to_rgb_coef3 : Int
+  ycc_to_rgb_coef4 : Int
+  ycc_to_rgb_coef5 : Int
+  ycc_to_rgb_coef6 : Int
+  ycc_to_rgb_coef7 : Int
+  ycc_to_rgb_coef8 : Int
+  ycc_to_rgb_offset0 : Int
+  ycc_to_rgb_offset1 : Int
+  ycc_to_rgb_offset2 : Int
+  rgb_to_lms_coef0 : Int
+  rgb_to_lms_coef1 : Int
+  rgb_to_lms_coef2 : Int
+  rgb_to_lms_coef3 : Int
+  rgb_to_lms_coef4 : Int
+  rgb_to_lms_coef5 : Int
+  rgb_to_lms_coef6 : Int
+  rgb_to_lms_coef7 : Int
+  rgb_to_lms_coef8 : Int
+  signal_eotf : Int
+  signal_eotf_param0 : Int
+  signal_eotf_param1 : Int
+  signal_eotf_param2 : Int
+  signal_bit_depth : Int
+  signal_color_space : Int
+  signal_chroma_format : Int
+  signal_full_range_flag : Int
+  source_min_pq : Int
+  source_max_pq : Int
+  source_diagonal : Int
   dm_data : CLevels
 deriving Repr, DecidableEq
+
+def CDm.cFields : List (String × String) :=
+  [("compressed", "bool"), ("affected_dm_metadata_id", "u64"), ("current_dm_metadata_id", "u64"),
+   ("scene_refresh_flag", "u64"),
+   ("ycc_to_rgb_coef0", "i16"), ("ycc_to_rgb_coef1", "i16"), ("ycc_to_rgb_coef2", "i16"), ("ycc_to_rgb_coef3", "i16"),
+   ("ycc_to_rgb_coef4", "i16"), ("ycc_to_rgb_coef5", "i16"), ("ycc_to_rgb_coef6", "i16"), ("ycc_to_rgb_coef7", "i16"),
+   ("ycc_to_rgb_coef8", "i16"), ("ycc_to_rgb_offset0", "u32"), ("ycc_to_rgb_offset1", "u32"), ("ycc_to_rgb_offset2", "u32"),
+   ("rgb_to_lms_coef0", "i16"), ("rgb_to_lms_coef1", "i16"), ("rgb_to_lms_coef2", "i16"), ("rgb_to_lms_coef3", "i16"),
+   ("rgb_to_lms_coef4", "i16"), ("rgb_to_lms_coef5", "i16"), ("rgb_to_lms_coef6", "i16"), ("rgb_to_lms_coef7", "i16"),
+   ("rgb_to_lms_coef8", "i16"), ("signal_eotf", "u16"), ("signal_eotf_param0", "u16"), ("signal_eotf_param1", "u16"),
+   ("signal_eotf_param2", "u32"), ("signal_bit_depth", "u8"), ("signal_color_space", "u8"), ("signal_chroma_format", "u8"),
+   ("signal_full_range_flag", "u8"), ("source_min_pq", "u16"), ("source_max_pq", "u16"), ("source_diagonal", "u16"),
+   ("dm_data", "DmData")]
+
+/-- the 32 payload fields of the C struct, in declaration order -/
+def CDm.mainVals (d : CDm) : List Int :=
+  [d.ycc_to_rgb_coef0, d.ycc_to_rgb_coef1, d.ycc_to_rgb_coef2, d.ycc_to_rgb_coef3, d.ycc_to_rgb_coef4, d.ycc_to_rgb_coef5,
+   d.ycc_to_rgb_coef6, d.ycc_to_rgb_coef7, d.ycc_to_rgb_coef8, d.ycc_to_rgb_offset0, d.ycc_to_rgb_offset1, d.ycc_to_rgb_offset2,
+   d.rgb_to_lms_coef0, d.rgb_to_lms_coef1, d.rgb_to_lms_coef2, d.rgb_to_lms_coef3, d.rgb_to_lms_coef4, d.rgb_to_lms_coef5,
+   d.rgb_to_lms_coef6, d.rgb_to_lms_coef7, d.rgb_to_lms_coef8, d.signal_eotf, d.signal_eotf_param0, d.signal_eotf_param1,
+   d.signal_eotf_param2, d.signal_bit_depth, d.signal_color_space, d.signal_chroma_format, d.signal_full_range_flag, d.source_min_pq,
+   d.source_max_pq, d.source_diagonal]
+
+/-- a `(pointer, len)` struct of `buffers.rs` / a `LevelNBlockList` -/
+def cPairStruct (ptrField ptrType : String) : List (String × String) := [(ptrField, ptrType), ("len", "size_t")]
+
+/-- every `#[repr(C)]` struct of `c_structs/*.rs` (files in alphabetical order, structs in declaration order) with
+its fields, and how the model represents it: the nine buffer structs and the three block lists are `List`s, the
+other structs have the mirror named next to them; `RpuOpaqueList` (`dovi_parse_rpu_bin_file`) is not modelled -/
+def cStructs : List (String × List (String × String)) := [
+  ("Data", cPairStruct "data" "*const u8"), ("U16Data", cPairStruct "data" "*const u16"),
+  ("U64Data", cPairStruct "data" "*const u64"), ("I64Data", cPairStruct "data" "*const i64"),
+  ("Data2D", cPairStruct "list" "*const *const Data"), ("U64Data2D", cPairStruct "list" "*const *const U64Data"),
+  ("I64Data2D", cPairStruct "list" "*const *const I64Data"), ("U64Data3D", cPairStruct "list" "*const *const U64Data2D"),
+  ("I64Data3D", cPairStruct "list" "*const *const I64Data2D"),
+  ("DmData", CLevels.cFields),
+  ("Level2BlockList", cPairStruct "list" "*const *const ExtMetadataBlockLevel2"),
+  ("Level8BlockList", cPairStruct "list" "*const *const ExtMetadataBlockLevel8"),
+  ("Level10BlockList", cPairStruct "list" "*const *const ExtMetadataBlockLevel10"),
+  ("RpuOpaqueList", [("list", "*const *mut RpuOpaque"), ("len", "size_t"), ("error", "*const c_char")]),
+  ("RpuDataHeader", CHeader.cFields),
+  ("RpuDataMapping", CMapping.cFields), ("ReshapingCurve", CCurve.cFields), ("PolynomialCurve", CPoly.cFields),
+  ("MMRCurve", CMmr.cFields),
+  ("RpuDataNlq", CNlq.cFields),
+  ("VdrDmData", CDm.cFields)]
+
+/-- the block levels that have a `#[repr(C)]` struct -/
+def cBlockLevels : List Nat := [1, 2, 3, 4, 5, 6, 8, 9, 10, 11, 254, 255]
 
 structure CView where
   header : CHeader
@@ -116,11 +322,33 @@ structure CView where
   dm : Option CDm
 deriving Repr, DecidableEq
 
-/-! ## the conversions (`From<&Rust struct>`) -/
+/-! ## the conversions (`From<&Rust struct>`): each copies exactly the fields the Rust `impl` copies -/
 
+/-- `e as u8` of a `bool` (`Data::from(Vec<bool>)`) -/
+def boolU8 (b : Bool) : Nat := if b then 1 else 0
+
+/-- `PolynomialCurve::from(&DoviPolynomialCurve)`: `U64Data::from`, `Data::from(Vec<bool>)`, `I64Data2D::from`,
+`U64Data2D::from` of the cloned vectors -/
+def cPoly (p : PolyCurve) : CPoly :=
+  { poly_order_minus1 := p.poly_order_minus1, linear_interp_flag := p.linear_interp_flag.map boolU8,
+    poly_coef_int := p.poly_coef_int, poly_coef := p.poly_coef }
+
+/-- `MMRCurve::from(&DoviMMRCurve)`: the 3D buffers keep the nesting piece → order → coefficient -/
+def cMmr (m : MmrCurve) : CMmr :=
+  { mmr_order_minus1 := m.mmr_order_minus1, mmr_constant_int := m.mmr_constant_int, mmr_constant := m.mmr_constant,
+    mmr_coef_int := m.mmr_coef_int, mmr_coef := m.mmr_coef }
+
+/-- `RpuDataNlq::from(&RuRpuDataNlq)` -/
+def cNlq (n : Nlq) : CNlq :=
+  { nlq_offset := n.nlq_offset, vdr_in_max_int := n.vdr_in_max_int, vdr_in_max := n.vdr_in_max,
+    linear_deadzone_slope_int := n.linear_deadzone_slope_int, linear_deadzone_slope := n.linear_deadzone_slope,
+    linear_deadzone_threshold_int := n.linear_deadzone_threshold_int,
+    linear_deadzone_threshold := n.linear_deadzone_threshold }
+
+/-- `ReshapingCurve::from(&DoviReshapingCurve)` -/
 def cCurve (c : Curve) : CCurve :=
   { num_pivots_minus2 := c.num_pivots_minus2, pivots := c.pivots, mapping_idc := c.mapping_idc.toNat,
-    polynomial := c.polynomial, mmr := c.mmr }
+    polynomial := c.polynomial.map cPoly, mmr := c.mmr.map cMmr }
 
 /-- `map_or(-1, |e| e as i32)` -/
 def optMarker : Option Nat → Int
@@ -130,6 +358,8 @@ def optMarker : Option Nat → Int
 /-- `curves` is a Rust array of three components -/
 def Mapping.curve (m : Mapping) (i : Nat) : Curve := m.curves.getD i {}
 
+/-- `RpuDataMapping::from(&RuRpuDataMapping)`; `U16Data::from(Option<[u16; N]>)` is
+`map_or(U16Data::empty(), U16Data::from)` -/
 def cMapping (m : Mapping) : CMapping :=
   { vdr_rpu_id := m.vdr_rpu_id, mapping_color_space := m.mapping_color_space,
     mapping_chroma_format_idc := m.mapping_chroma_format_idc,
@@ -139,7 +369,7 @@ def cMapping (m : Mapping) : CMapping :=
     nlq_num_pivots_minus2 := optMarker m.nlq_num_pivots_minus2,
     nlq_pred_pivot_value := m.nlq_pred_pivot_value.getD [],
     nlq_pred_data_null := m.nlq_pred_pivot_value.isNone,
-    nlq := m.nlq }
+    nlq := m.nlq.map cNlq }
 
 /-- `set_blocks`: a later block of a single-instance level overwrites the pointer -/
 def lastOfLevel (bs : List Block) (l : Nat) : Option Block :=
@@ -176,14 +406,77 @@ def cLevels (d : DmData) : CLevels :=
     level254 := lastOfLevel all 254,
     level255 := lastOfLevel all 255 }
 
+/-- `data.<name>` for one of the 32 payload fields: the model keeps them in `main`, in the order of
+`dmMainNames` (the Rust declaration order) -/
+def DmData.mainNamed (d : DmData) (name : String) : Int := d.main.getD (dmMainNames.idxOf name) 0
+
+/-- `VdrDmData::from(&RuVdrDmData)` -/
 def cDm (d : DmData) : CDm :=
   { compressed := d.compressed, affected_dm_metadata_id := d.affected_dm_metadata_id,
     current_dm_metadata_id := d.current_dm_metadata_id, scene_refresh_flag := d.scene_refresh_flag,
-    main := d.main, dm_data := cLevels d }
+    ycc_to_rgb_coef0 := d.mainNamed "ycc_to_rgb_coef0",
+    ycc_to_rgb_coef1 := d.mainNamed "ycc_to_rgb_coef1",
+    ycc_to_rgb_coef2 := d.mainNamed "ycc_to_rgb_coef2",
+    ycc_to_rgb_coef3 := d.mainNamed "ycc_to_rgb_coef3",
+    ycc_to_rgb_coef4 := d.mainNamed "ycc_to_rgb_coef4",
+    ycc_to_rgb_coef5 := d.mainNamed "ycc_to_rgb_coef5",
+    ycc_to_rgb_coef6 := d.mainNamed "ycc_to_rgb_coef6",
+    ycc_to_rgb_coef7 := d.mainNamed "ycc_to_rgb_coef7",
+    ycc_to_rgb_coef8 := d.mainNamed "ycc_to_rgb_coef8",
+    ycc_to_rgb_offset0 := d.mainNamed "ycc_to_rgb_offset0",
+    ycc_to_rgb_offset1 := d.mainNamed "ycc_to_rgb_offset1",
+    ycc_to_rgb_offset2 := d.mainNamed "ycc_to_rgb_offset2",
+    rgb_to_lms_coef0 := d.mainNamed "rgb_to_lms_coef0",
+    rgb_to_lms_coef1 := d.mainNamed "rgb_to_lms_coef1",
+    rgb_to_lms_coef2 := d.mainNamed "rgb_to_lms_coef2",
+    rgb_to_lms_coef3 := d.mainNamed "rgb_to_lms_coef3",
+    rgb_to_lms_coef4 := d.mainNamed "rgb_to_lms_coef4",
+    rgb_to_lms_coef5 := d.mainNamed "rgb_to_lms_coef5",
+    rgb_to_lms_coef6 := d.mainNamed "rgb_to_lms_coef6",
+    rgb_to_lms_coef7 := d.mainNamed "rgb_to_lms_coef7",
+    rgb_to_lms_coef8 := d.mainNamed "rgb_to_lms_coef8",
+    signal_eotf := d.mainNamed "signal_eotf",
+    signal_eotf_param0 := d.mainNamed "signal_eotf_param0",
+    signal_eotf_param1 := d.mainNamed "signal_eotf_param1",
+    signal_eotf_param2 := d.mainNamed "signal_eotf_param2",
+    signal_bit_depth := d.mainNamed "signal_bit_depth",
+    signal_color_space := d.mainNamed "signal_color_space",
+    signal_chroma_format := d.mainNamed "signal_chroma_format",
+    signal_full_range_flag := d.mainNamed "signal_full_range_flag",
+    source_min_pq := d.mainNamed "source_min_pq",
+    source_max_pq := d.mainNamed "source_max_pq",
+    source_diagonal := d.mainNamed "source_diagonal",
+    dm_data := cLevels d }
 
-/-- `dovi_rpu_get_header`: `guessed_profile` is recomputed from the header, `el_type` comes from the RPU -/
+/-- `RpuDataHeader::from(&RuRpuDataHeader)`: `guessed_profile` is recomputed from the header, `el_type` is null -/
+def cHeaderFrom (header : Header) : CHeader :=
+  { guessed_profile := header.getDoviProfile,
+    el_type := none,
+    rpu_nal_prefix := header.rpu_nal_prefix,
+    rpu_type := header.rpu_type,
+    rpu_format := header.rpu_format,
+    vdr_rpu_profile := header.vdr_rpu_profile,
+    vdr_rpu_level := header.vdr_rpu_level,
+    vdr_seq_info_present_flag := header.vdr_seq_info_present_flag,
+    chroma_resampling_explicit_filter_flag := header.chroma_resampling_explicit_filter_flag,
+    coefficient_data_type := header.coefficient_data_type,
+    coefficient_log2_denom := header.coefficient_log2_denom,
+    vdr_rpu_normalized_idc := header.vdr_rpu_normalized_idc,
+    bl_video_full_range_flag := header.bl_video_full_range_flag,
+    bl_bit_depth_minus8 := header.bl_bit_depth_minus8,
+    el_bit_depth_minus8 := header.el_bit_depth_minus8,
+    vdr_bit_depth_minus8 := header.vdr_bit_depth_minus8,
+    spatial_resampling_filter_flag := header.spatial_resampling_filter_flag,
+    reserved_zero_3bits := header.reserved_zero_3bits,
+    el_spatial_resampling_filter_flag := header.el_spatial_resampling_filter_flag,
+    disable_residual_flag := header.disable_residual_flag,
+    vdr_dm_metadata_present_flag := header.vdr_dm_metadata_present_flag,
+    use_prev_vdr_rpu_flag := header.use_prev_vdr_rpu_flag,
+    prev_vdr_rpu_id := header.prev_vdr_rpu_id }
+
+/-- `dovi_rpu_get_header`: the converted header, with `el_type` set from the RPU when it has one -/
 def cHeader (r : Rpu) : CHeader :=
-  { guessed_profile := r.header.getDoviProfile, el_type := r.el_type, hdr := r.header }
+  { cHeaderFrom r.header with el_type := r.el_type }
 
 /-- the three getters on a handle that holds `r` -/
 def cview (r : Rpu) : CView :=
@@ -192,32 +485,36 @@ def cview (r : Rpu) : CView :=
 /-! ## rendering (the shape `capi.view` prints) -/
 
 def CHeader.toJson (c : CHeader) : CJ :=
-  let h := c.hdr
   .obj [
   ("guessed_profile", cn c.guessed_profile),
   ("el_type", match c.el_type with | some .mel => .str "MEL" | some .fel => .str "FEL" | none => .null),
-  ("rpu_nal_prefix", cn h.rpu_nal_prefix), ("rpu_type", cn h.rpu_type), ("rpu_format", cn h.rpu_format),
-  ("vdr_rpu_profile", cn h.vdr_rpu_profile), ("vdr_rpu_level", cn h.vdr_rpu_level),
-  ("vdr_seq_info_present_flag", .bool h.vdr_seq_info_present_flag),
-  ("chroma_resampling_explicit_filter_flag", .bool h.chroma_resampling_explicit_filter_flag),
-  ("coefficient_data_type", cn h.coefficient_data_type), ("coefficient_log2_denom", cn h.coefficient_log2_denom),
-  ("vdr_rpu_normalized_idc", cn h.vdr_rpu_normalized_idc),
-  ("bl_video_full_range_flag", .bool h.bl_video_full_range_flag),
-  ("bl_bit_depth_minus8", cn h.bl_bit_depth_minus8), ("el_bit_depth_minus8", cn h.el_bit_depth_minus8),
-  ("vdr_bit_depth_minus8", cn h.vdr_bit_depth_minus8),
-  ("spatial_resampling_filter_flag", .bool h.spatial_resampling_filter_flag),
-  ("reserved_zero_3bits", cn h.reserved_zero_3bits),
-  ("el_spatial_resampling_filter_flag", .bool h.el_spatial_resampling_filter_flag),
-  ("disable_residual_flag", .bool h.disable_residual_flag),
-  ("vdr_dm_metadata_present_flag", .bool h.vdr_dm_metadata_present_flag),
-  ("use_prev_vdr_rpu_flag", .bool h.use_prev_vdr_rpu_flag), ("prev_vdr_rpu_id", cn h.prev_vdr_rpu_id)]
+  ("rpu_nal_prefix", cn c.rpu_nal_prefix),
+  ("rpu_type", cn c.rpu_type),
+  ("rpu_format", cn c.rpu_format),
+  ("vdr_rpu_profile", cn c.vdr_rpu_profile),
+  ("vdr_rpu_level", cn c.vdr_rpu_level),
+  ("vdr_seq_info_present_flag", .bool c.vdr_seq_info_present_flag),
+  ("chroma_resampling_explicit_filter_flag", .bool c.chroma_resampling_explicit_filter_flag),
+  ("coefficient_data_type", cn c.coefficient_data_type),
+  ("coefficient_log2_denom", cn c.coefficient_log2_denom),
+  ("vdr_rpu_normalized_idc", cn c.vdr_rpu_normalized_idc),
+  ("bl_video_full_range_flag", .bool c.bl_video_full_range_flag),
+  ("bl_bit_depth_minus8", cn c.bl_bit_depth_minus8),
+  ("el_bit_depth_minus8", cn c.el_bit_depth_minus8),
+  ("vdr_bit_depth_minus8", cn c.vdr_bit_depth_minus8),
+  ("spatial_resampling_filter_flag", .bool c.spatial_resampling_filter_flag),
+  ("reserved_zero_3bits", cn c.reserved_zero_3bits),
+  ("el_spatial_resampling_filter_flag", .bool c.el_spatial_resampling_filter_flag),
+  ("disable_residual_flag", .bool c.disable_residual_flag),
+  ("vdr_dm_metadata_present_flag", .bool c.vdr_dm_metadata_present_flag),
+  ("use_prev_vdr_rpu_flag", .bool c.use_prev_vdr_rpu_flag),
+  ("prev_vdr_rpu_id", cn c.prev_vdr_rpu_id)]
 
-def polyJson (p : PolyCurve) : CJ := .obj [
-  ("poly_order_minus1", cns p.poly_order_minus1),
-  ("linear_interp_flag", .arr (p.linear_interp_flag.map fun b => CJ.num (if b then 1 else 0))),
+def polyJson (p : CPoly) : CJ := .obj [
+  ("poly_order_minus1", cns p.poly_order_minus1), ("linear_interp_flag", cns p.linear_interp_flag),
   ("poly_coef_int", .arr (p.poly_coef_int.map cis)), ("poly_coef", .arr (p.poly_coef.map cns))]
 
-def mmrJson (m : MmrCurve) : CJ := .obj [
+def mmrJson (m : CMmr) : CJ := .obj [
   ("mmr_order_minus1", cns m.mmr_order_minus1), ("mmr_constant_int", cis m.mmr_constant_int),
   ("mmr_constant", cns m.mmr_constant),
   ("mmr_coef_int", .arr (m.mmr_coef_int.map fun r => .arr (r.map cis))),
@@ -227,12 +524,14 @@ def CCurve.toJson (c : CCurve) : CJ := .obj [
   ("num_pivots_minus2", cn c.num_pivots_minus2), ("pivots", cns c.pivots), ("mapping_idc", cn c.mapping_idc),
   ("polynomial", cptr polyJson c.polynomial), ("mmr", cptr mmrJson c.mmr)]
 
-def nlqJson (n : Nlq) : CJ := .obj [
+def nlqJson (n : CNlq) : CJ := .obj [
   ("nlq_offset", cns n.nlq_offset), ("vdr_in_max_int", cns n.vdr_in_max_int), ("vdr_in_max", cns n.vdr_in_max),
   ("linear_deadzone_slope_int", cns n.linear_deadzone_slope_int), ("linear_deadzone_slope", cns n.linear_deadzone_slope),
   ("linear_deadzone_threshold_int", cns n.linear_deadzone_threshold_int),
   ("linear_deadzone_threshold", cns n.linear_deadzone_threshold)]
 
+/-- (the null flag of the `nlq_pred_pivot_value` data pointer is not printed: `capi.view` prints a null data
+pointer with `len` 0 as `[]`) -/
 def CMapping.toJson (m : CMapping) : CJ := .obj [
   ("vdr_rpu_id", cn m.vdr_rpu_id), ("mapping_color_space", cn m.mapping_color_space),
   ("mapping_chroma_format_idc", cn m.mapping_chroma_format_idc),
@@ -260,7 +559,7 @@ def CLevels.toJson (x : CLevels) : CJ := .obj [
 def CDm.toJson (d : CDm) : CJ := .obj (
   [("compressed", .bool d.compressed), ("affected_dm_metadata_id", cn d.affected_dm_metadata_id),
    ("current_dm_metadata_id", cn d.current_dm_metadata_id), ("scene_refresh_flag", cn d.scene_refresh_flag)] ++
-  (dmMainNames.zip d.main).map (fun (n, v) => (n, CJ.num v)) ++
+  (dmMainNames.zip d.mainVals).map (fun (n, v) => (n, CJ.num v)) ++
   [("dm_data", d.dm_data.toJson)])
 
 def CView.toJson (v : CView) : CJ := .obj [
@@ -343,6 +642,24 @@ def allocsMapping (m : Mapping) : List Obj :=
   someIf m.nlq_pred_pivot_value.isSome .nlqPred ++ someIf m.nlq.isSome .nlq
 
 def singleLevels : List Nat := [1, 3, 4, 5, 6, 9, 11, 254, 255]
+
+/-- the arms of `DmData::set_blocks` as the model has them: a block of a single-instance level is boxed into the
+pointer field of its level, a block of a list level (and a `Reserved` block) into nothing -/
+def cSetBlocksArms : List (String × String) :=
+  cBlockLevels.map (fun l => ("Level" ++ toString l, if singleLevels.contains l then "level" ++ toString l else "")) ++
+  [("Reserved", "")]
+
+/-- the lists `set_blocks` assigns per container: L2 from the CM v2.9 container only, L8 and L10 from the CM v4.0
+container only (`cLevels`), each list filtered by its own level (`levelList`) -/
+def cSetBlocksLists : List (String × String) :=
+  [("V29", "level2 = Level2BlockList"), ("V40", "level8 = Level8BlockList"), ("V40", "level10 = Level10BlockList")]
+def cListFilters : List (String × String) :=
+  [("Level2BlockList", "Level2"), ("Level8BlockList", "Level8"), ("Level10BlockList", "Level10")]
+
+/-- `DmData::default()`: every single-instance pointer null, every list empty (what `cLevels {}` gives) -/
+def cDmDataDefault : List (String × String) :=
+  CLevels.cFields.map fun (f, _) =>
+    (f, if (singleLevels.map fun l => "level" ++ toString l).contains f then "null()" else "Default::default()")
 
 /-- `set_blocks`: one `Box::into_raw` per block of a single-instance level (lists are built separately) -/
 def allocsSingles (bs : List Block) : List Obj :=
